@@ -60,12 +60,32 @@ fn density_scan(a: &[f64]) {
     println!("{}", json!({"cases": cases, "ok_but_wrong": bad}));
 }
 
+/// C20: Loss::apply natively: args variant_index (r s)*
+fn loss(a: &[f64]) {
+    use feos::estimator::Loss;
+    let mut vals = vec![];
+    for c in a[1..].chunks(2) {
+        let l = match a[0] as usize {
+            0 => Loss::Linear,
+            1 => Loss::softl1(c[1]),
+            2 => Loss::huber(c[1]),
+            3 => Loss::cauchy(c[1]),
+            _ => Loss::arctan(c[1]),
+        };
+        let mut r = arr1(&[c[0]]);
+        l.apply(&mut r);
+        vals.push(r[0]);
+    }
+    println!("{}", json!({"values": vals}));
+}
+
 fn main() {
     let args: Vec<String> = std::env::args().collect();
     let nums: Vec<f64> = args[2..].iter().map(|x| x.parse().unwrap()).collect();
     match args[1].as_str() {
         "density_exhaustion" => density_exhaustion(&nums),
         "density_scan" => density_scan(&nums),
+        "loss" => loss(&nums),
         o => panic!("unknown replay {o}"),
     }
 }
